@@ -272,7 +272,9 @@ class StageCopyLink(Target):
                 ('something-is-staged', out.kind == 'raise' or len(g['created']) == 1)]
 
 
-KEYS = ['bin', 'data/extra', 'nested/dir', '../outside', 'bin/../../escape', '/abs/path', 'ok/../fine', '..']
+KEYS = ['bin', 'data/extra', 'nested/dir', '../outside', 'bin/../../escape', '/abs/path', 'ok/../fine', '..',
+        # siblings whose name STARTS with the instance directory's name (character-wise prefix tests accept them)
+        '../inst-old/bin', 'bin/../../inst.bak', '/work/inst-shared/bin']
 
 
 class DeployManifest(Target):
